@@ -173,8 +173,14 @@ def c10(run, tier):
 def c11(run, tier):
     run.rule = ("TLC enumerates histories of solve / solve_limited(callback false at its k-th consultation, k <= MaxStop) on one solver; invariants "
                 "InterruptSafe (an interrupted call returns the full answer or `Ambiguous; no guidance`) and ResultsCorrect (every later full solve "
-                "returns the fresh answer); replay on real SLG (answer, step count, number of callback consultations) and recursive solver")
-    run.assumptions = GROUND_ASSUME + ["ground goals: the only weaker answer is Ambig(Unknown)"]
+                "returns the fresh answer); replay on real SLG (answer, step count, number of callback consultations) and recursive solver; first-order level: "
+                "ApproxMC.tla defines which results an interrupted solve may return for a given full answer (Approx = equal, or ambiguous and claiming "
+                "nothing the full answer does not imply; checked to be a sound preorder) and prints the table; goals with unknowns of ImplMC / MiniMC "
+                "programs are solved fully, then on a fresh solver with the callback returning false at its k-th consultation (k <= 5, thorough 8) followed "
+                "by an unlimited solve on the same solver: the interrupted answer must be admissible by the table and the later solve must equal the fresh one")
+    run.assumptions = GROUND_ASSUME + ["ground goals: the only weaker answer is Ambig(Unknown)",
+                                       "first-order: substitutions are compared as equal / more general / other (the three patterns of ApproxMC.tla); the recursive "
+                                       "solver with the cache disabled is not run on the generic-struct programs (exponential even without interruption)"]
     if tier == "quick":
         f, byid = fam(run, tier, (2, 2, 2, True, True), 60, None)
     else:
@@ -183,6 +189,8 @@ def c11(run, tier):
                                                           "Invariants": ["ResultsCorrect", "DeviationShape", "EnginePanicShape", "InterruptSafe", "BoundedWork"]}, "C11")
     recs = [r for r in recs if any(x["kind"] == "limited" for x in r["results"])]
     gc.replay(run, recs, byid, [gc.SLG, gc.REC, gc.RECNC])
+    import props_intr
+    props_intr.interrupt_first_order(run, tier)
 
 # ------------------------------------------------------------------------------------------------
 @prop("C13")
